@@ -28,7 +28,10 @@ SystemLane(msgs) ==
      \/ (msgs[1].k = "exec" /\ Len(msgs[1].inner) = 1 /\ IsOracle(msgs[1].inner[1]))
 
 (* free lane: fee payer or fee granter on the on-chain whitelist *)
-FreeLane(c) == c.payer \in c.whitelist \/ (c.granter # "" /\ c.granter \in c.whitelist)
+(* the whitelist is whatever the last ACCEPTED parameter update set: an update naming an entry that is not an address     *)
+(* ("bad:empty": the empty string) is refused as a whole and leaves the previous (here: empty) whitelist in force          *)
+EffectiveWL(req) == IF "bad:empty" \in req THEN {} ELSE req
+FreeLane(c) == LET wl == EffectiveWL(c.whitelist) IN c.payer \in wl \/ (c.granter # "" /\ c.granter \in wl)
 
 (* redundant-relay filter.  c = [mode, simulate, next, msgs]; a deposit message carries its sequence *)
 RECURSIVE Relay(_, _, _, _, _)
